@@ -536,7 +536,19 @@ def l_r2b_every_handwritten_producer_escapes(p: Project, rep: Report, rule: str 
     rep.rule(rule, "every function of ofxtools.utils that composes markup text by hand - an f-string / str.format template with '<' ... '>' in its literal parts - writes an element's text only through saxutils.escape (or html.escape / a replace chain that the main clause recognises): a producer that serves BOTH wire forms and escapes in one branch only (`<TAG>text</TAG>` raw for the closed version-1 form, escaped for the unclosed one) puts `&` and `<` of a password or memo on the wire raw")
     m = p.module("ofxtools.utils")
     n = 0
+    # module functions that escape what they are given (their body calls an escape routine or a replace chain on '&')
+    escapers = set()
+    for qn_, cls_, fn_ in m.functions():
+        src_ = ast.unparse(fn_)
+        if any(isinstance(r_, ast.Return) for r_ in ast.walk(fn_)) and ("escape(" in src_ or ".replace('&'" in src_ or '.replace("&"' in src_):
+            escapers.add(fn_.name)
+
+    def escaped(t_: str) -> bool:
+        return "escape(" in t_ or any(f"{e_}(" in t_ for e_ in escapers)
+
     for qn, cls, fn in m.functions():
+        if fn.name in escapers and not any(isinstance(x, ast.JoinedStr) and "<" in "".join(str(v.value) for v in x.values if isinstance(v, ast.Constant)) for x in ast.walk(fn)):
+            continue
         ex = Expander(fn)
         # names that hold an element's text
         texts = set()
@@ -545,7 +557,7 @@ def l_r2b_every_handwritten_producer_escapes(p: Project, rep: Report, rule: str 
                 tgts = st.targets[0].elts if len(st.targets) == 1 and isinstance(st.targets[0], ast.Tuple) else st.targets
                 vals = st.value.elts if isinstance(st.value, ast.Tuple) and len(st.targets) == 1 and isinstance(st.targets[0], ast.Tuple) and len(st.value.elts) == len(st.targets[0].elts) else [st.value] * len(tgts)
                 for t_, v_ in zip(tgts, vals):
-                    if isinstance(t_, ast.Name) and ".text" in text(v_) and "escape(" not in text(v_):
+                    if isinstance(t_, ast.Name) and ".text" in text(v_) and not escaped(text(v_)):
                         texts.add(t_.id)
         for x in ast.walk(fn):
             parts = None
@@ -558,7 +570,7 @@ def l_r2b_every_handwritten_producer_escapes(p: Project, rep: Report, rule: str 
                 continue
             for v in parts:
                 tv = text(v)
-                raw = (isinstance(v, ast.Name) and v.id in texts) or (".text" in tv and "escape(" not in tv)
+                raw = (isinstance(v, ast.Name) and v.id in texts) or (".text" in tv and not escaped(tv))
                 if not raw:
                     continue
                 n += 1
